@@ -1132,6 +1132,39 @@ fn sort_kf(src: &str, vals: &[&Value]) -> Option<&'static str> {
     }
 }
 
+/// break / continue against every nesting of capturing constructs around and inside the loop:
+/// outer capture x inner capture x optional `if` x break/continue, plus the legal variants where an
+/// inner loop owns the statement. The parser must reject a break/continue that would leave a
+/// capture opened inside its loop; whatever it accepts must render with the three stacks empty (H1)
+/// and its chunks must pass the validator (family wld).
+fn capture_nesting_sets() -> Vec<(String, Vec<(String, String)>)> {
+    let defs = "{% component box() %}[{{ body }}]{% endcomponent box %}";
+    let caps: [(&str, &str, &str); 4] = [
+        ("none", "", ""),
+        ("filter", "{% filter upper %}", "{% endfilter %}"),
+        ("set", "{% set s %}", "{% endset %}{{ s }}"),
+        ("body", "{% <box> %}", "{% </box> %}"),
+    ];
+    let mut out = Vec::new();
+    for (on, oo, oc) in caps {
+        for (inn, io, ic) in caps {
+            for stmt in ["break", "continue"] {
+                for with_if in [true, false] {
+                    let st = if with_if { format!("{{% if i == 2 %}}{{% {stmt} %}}{{% endif %}}") } else { format!("{{% {stmt} %}}") };
+                    let io2 = io.replace("set s", "set t");
+                    let ic2 = ic.replace("{{ s }}", "{{ t }}");
+                    let t1 = format!("{defs}{oo}{{% for i in [1, 2, 3] %}}{io2}a{{{{ i }}}}{st}b{ic2}{{% endfor %}}{oc}|tail");
+                    out.push((format!("nest:{on}-for-{inn}-{stmt}{}", if with_if { "-if" } else { "" }), vec![("n.html".to_string(), t1)]));
+                    // the statement belongs to an inner loop that lives inside the inner capture: legal
+                    let t2 = format!("{defs}{oo}{{% for i in [1, 2, 3] %}}{io2}{{% for j in [1, 2] %}}a{{{{ j }}}}{st}b{{% endfor %}}{ic2}{{% endfor %}}{oc}|tail");
+                    out.push((format!("nest:{on}-for-{inn}-for-{stmt}{}", if with_if { "-if" } else { "" }), vec![("n.html".to_string(), t2)]));
+                }
+            }
+        }
+    }
+    out
+}
+
 fn main() {
     if std::env::args().any(|a| a == "--child") {
         silence_panics();
@@ -1217,6 +1250,7 @@ fn main() {
     let n_sets = if thorough { 800 } else { 90 };
     let mut sets: Vec<(String, Vec<(String, String)>)> = corpus::corpus_sets();
     sets.extend(deep_sets());
+    sets.extend(capture_nesting_sets());
     for k in 0..n_sets {
         sets.push((format!("set#{k}"), gen_set(&mut rng, k)));
     }
